@@ -55,6 +55,8 @@ def run(check, prog):
     # "values, coordinates and metadata are kept" rests on copy_metadata
     from . import c01
     c01.f6_copy_metadata(check, prog)
+    # a result on explicit points says where each value is (shared with C01)
+    c01.f9_point_coordinates(check, prog)
     constructors(check, prog)
     # a pixel's value must not depend on which other pixels are computed in the
     # same call: the interpolation windows of the radial integrals sit on a fixed
